@@ -28,7 +28,7 @@ VARIABLES ps,    \* P state
           hist   \* Emit: the calls with their expected outcomes
 vars == <<ps, is, is1, n, last, hist>>
 
-MaxObjs == IF Level = 1 THEN 2 ELSE 3
+MaxObjs == IF Level \in {1, 4} THEN 2 ELSE 3
 
 (* ------------------------------------------------ byte arithmetic ------------------------------------------------ *)
 Or8(x, y) ==
@@ -201,11 +201,12 @@ SerCallsOf(st, o) ==
         \cup {Call(o, "bits", Len(v), k, v) : k \in ks, v \in SerBools}
 SerCalls(st) == UNION {SerCallsOf(st, o) : o \in 1..Len(st.objs)}
 
-DesWidths == IF Level = 1 THEN {3, 8, 12} ELSE IF Level = 2 THEN {1, 3, 8, 12, 16} ELSE {1, 2, 3, 5, 7, 8, 9, 12, 15, 16, 24}
-DesCounts == IF Level = 1 THEN {0, 1, 2} ELSE {0, 1, 2, 3}
-DesBitCounts == IF Level = 1 THEN {0, 3, 9} ELSE {0, 1, 3, 8, 9, 11}
-DesSkips == IF Level = 1 THEN {1, 8} ELSE {0, 1, 3, 8, 16, 40}
-DesPads == IF Level = 1 THEN {8} ELSE {1, 8, 16}
+DesWidths == IF Level = 1 THEN {3, 12} ELSE IF Level \in {2, 4} THEN {3, 8, 12} ELSE {1, 2, 3, 5, 7, 8, 9, 12, 15, 16, 24}
+DesCounts == IF Level = 1 THEN {0, 2} ELSE IF Level \in {2, 4} THEN {0, 1, 2} ELSE {0, 1, 2, 3}
+DesBitCounts == IF Level = 1 THEN {0, 9} ELSE IF Level \in {2, 4} THEN {0, 3, 9} ELSE {0, 1, 3, 8, 9, 11}
+DesSkips == IF Level \in {1, 2, 4} THEN {1, 8} ELSE {0, 1, 3, 8, 16}
+DesPads == IF Level \in {1, 2, 4} THEN {8} ELSE {1, 8, 16}
+DesStd == IF Level = 1 THEN {16} ELSE {8, 16}
 
 DesCallsOf(st, o) ==
     LET al == st.objs[o].cur % 8 = 0
@@ -215,18 +216,19 @@ DesCallsOf(st, o) ==
         \cup {Call(o, "pad", a, "or", <<>>) : a \in DesPads}
         \cup (IF Len(st.objs) < MaxObjs THEN {Call(o, "fork", f, "or", <<>>) : f \in {0, 1, 2}} ELSE {})
         \cup {Call(o, "u", w, k, <<>>) : w \in DesWidths, k \in ks}
-        \cup (IF al THEN {StdCall(o, "u", w) : w \in {8, 16}} \cup {StdCall(o, "s", w) : w \in {8, 16}} ELSE {})
+        \cup (IF al THEN {StdCall(o, "u", w) : w \in DesStd} \cup {StdCall(o, "s", w) : w \in DesStd} ELSE {})
         \cup {Call(o, "s", w, k, <<>>) : w \in DesWidths \ {1}, k \in ks}
         \cup {Call(o, "bit", 1, "or", <<>>)}
         \cup {Call(o, "bytes", cn, k, <<>>) : cn \in DesCounts, k \in ks}
         \cup {Call(o, "bits", cn, k, <<>>) : cn \in DesBitCounts, k \in ks}
 DesCalls(st) == UNION {DesCallsOf(st, o) : o \in 1..Len(st.objs)}
 
-(* inputs: all byte strings up to MaxData bytes over {00, FF, A5}, ALL ways of cutting them into fragments, with at   *)
-(* most one empty fragment anywhere (Level 1) / an empty fragment in any subset of the gaps (Level 2)                 *)
+(* inputs: all byte strings up to MaxData bytes (Level 1: 2, Level 2: 3, Level 4: 4) over {00, FF, A5}, ALL ways of    *)
+(* cutting them into fragments, with at most one empty fragment anywhere (Levels 1, 2) / an empty fragment in any       *)
+(* subset of the gaps (Level 4, histories of two calls)                                                               *)
 Symbols == {0, 255, 165}
-MaxData == IF Level = 1 THEN 3 ELSE 4
-DataSet == IF Level = 3 THEN {<<165, 255, 0, 195, 90, 129>>}
+MaxData == IF Level = 1 THEN 2 ELSE IF Level = 2 THEN 3 ELSE 4
+DataSet == IF Level = 3 THEN {<<>>, <<165>>, <<255, 0, 195>>, <<165, 255, 0, 195, 90, 129, 60, 255>>}
            ELSE UNION {[1..L -> Symbols] : L \in 0..MaxData}
 RECURSIVE Comps(_)
 Comps(d) == IF Len(d) = 0 THEN {<<>>}
@@ -234,7 +236,7 @@ Comps(d) == IF Len(d) = 0 THEN {<<>>}
 RECURSIVE Interleave(_, _, _)             \* an empty fragment in every gap g (0..Len(fs)) with g \in G
 Interleave(fs, G, g) ==
     (IF g \in G THEN <<<<>>>> ELSE <<>>) \o (IF g >= Len(fs) THEN <<>> ELSE <<fs[g + 1]>> \o Interleave(fs, G, g + 1))
-GapSets(fs) == IF Level = 1 THEN {{}} \cup {{g} : g \in 0..Len(fs)} ELSE SUBSET (0..Len(fs))
+GapSets(fs) == IF Level \in {1, 2} THEN {{}} \cup {{g} : g \in 0..Len(fs)} ELSE SUBSET (0..Len(fs))
 Frags(d) == UNION {{Interleave(fs, G, 0) : G \in GapSets(fs)} : fs \in Comps(d)}
 
 (* --------------------------------------------------- the machine --------------------------------------------------- *)
@@ -280,6 +282,14 @@ Next ==
     /\ n' = n + 1
     /\ IF Kind = "ser" THEN \E c \in SerCalls(ps) : SerStep(c) ELSE \E c \in DesCalls(ps) : DesStep(c)
 Spec == Init /\ [][Next]_vars
+
+(* -simulate: ONE randomly chosen defined call per step (the successor set of Next over the rich alphabet is large) *)
+SimNext ==
+    /\ n < MaxCalls
+    /\ n' = n + 1
+    /\ IF Kind = "ser" THEN SerStep(RandomElement({c \in SerCalls(ps) : SDefined(ps, c)}))
+       ELSE DesStep(RandomElement({c \in DesCalls(ps) : DDefined(ps, c)}))
+SimSpec == Init /\ [][SimNext]_vars
 
 (* --------------------------------------------------- properties --------------------------------------------------- *)
 MemBits == BitsOfBytes(is.mem)
